@@ -177,5 +177,20 @@ pub fn deep_eval_boundary<S: Src>(s: &mut S) {
     assert!(r == n as f64, "deep evaluation of a chain of n operands");
 }
 
-registry!("u1", deep_eval_boundary, eval_numbers_boundary_64, eval_numbers_boundary_65, eval_numbers_boundary_66, intrinsics_spec, word_tracker, slice_tracker_3, slice_tracker_4,
+/// native-only probe: flat -> deep conversion (`flatex_to_deepex`, its inlined tracker loop) of a chain of
+/// n variables with a `*` at a byte-chosen position, then evaluation of the deep form
+pub fn flat2deep_boundary<S: Src>(s: &mut S) {
+    use exmex::prelude::*;
+    let n = s.u8() as usize;
+    let m = s.u8() as usize;
+    s.assume(n >= 2);
+    let mut text = String::from("x");
+    for i in 1..n { text.push_str(if i == m % n && i > 0 { "*" } else { "+" }); text.push('x'); }
+    let f = FlatEx::<f64>::parse(&text).unwrap();
+    let expect = f.eval(&[1.0]).unwrap();
+    let d = f.to_deepex().unwrap();
+    assert!(d.eval(&[1.0]).unwrap() == expect, "flat -> deep conversion of a chain of n operands preserves the value");
+}
+
+registry!("u1", flat2deep_boundary, deep_eval_boundary, eval_numbers_boundary_64, eval_numbers_boundary_65, eval_numbers_boundary_66, intrinsics_spec, word_tracker, slice_tracker_3, slice_tracker_4,
     eval_binary_orders_4, eval_binary_orders_6, eval_binary_orders_4_slice);
